@@ -146,10 +146,10 @@ Proof. repeat split; try lra. right. left. reflexivity. Qed.
 (* antipodal points on the equator: the arc is half the circumference, the chord the diameter *)
 Example antipodal_points : tunnel 1 0 0 0 180 = 2.
 Proof.
-  unfold tunnel, geocentric2cart. cbv zeta.
+  unfold tunnel. rewrite !geocentric2cart_spec. cbv beta iota zeta.
   replace (0 * PI / 180) with 0 by field. replace (180 * PI / 180) with PI by field.
   rewrite cos_0, sin_0, cos_PI, sin_PI.
-  replace ((1 * 1 * -1 - 1 * 1 * 1) ^ 2 + (1 * 1 * 0 - 1 * 1 * 0) ^ 2 + (1 * 0 - 1 * 0) ^ 2) with (2 * 2) by ring.
+  match goal with |- sqrt ?t = 2 => replace t with (2 * 2) by ring end.
   apply sqrt_square. lra.
 Qed.
 
